@@ -243,11 +243,11 @@ def stripBlock? (k : Nat) (comment : List Char) : Option (List Char) :=
 
 /-- `remove_comment_header`; `none` = a slice or the `assert!` panics. -/
 def removeCommentHeader? (comment : List Char) : Option (List Char) :=
-  if startsWith comment "///".toList || startsWith comment "//!".toList then some (comment.drop 3)
-  else if startsWith comment "//".toList then some (comment.drop 2)
-  else if (startsWith comment "/**".toList && !startsWith comment "/**/".toList)
-      || startsWith comment "/*!".toList then stripBlock? 3 comment
-  else if startsWith comment "/*".toList then stripBlock? 2 comment
+  if startsWith comment ['/', '/', '/'] || startsWith comment ['/', '/', '!'] then some (comment.drop 3)
+  else if startsWith comment ['/', '/'] then some (comment.drop 2)
+  else if (startsWith comment ['/', '*', '*'] && !startsWith comment ['/', '*', '*', '/'])
+      || startsWith comment ['/', '*', '!'] then stripBlock? 3 comment
+  else if startsWith comment ['/', '*'] then stripBlock? 2 comment
   else none
 
 /-- Where `CommentReducer::next` stands between two characters. -/
@@ -280,7 +280,7 @@ def reduce (isBlock : Bool) : RState → List Char → List Char
 
 /-- `CommentReducer::new(comment).collect()`; `none` = `remove_comment_header` panics. -/
 def payload? (comment : List Char) : Option (List Char) :=
-  (removeCommentHeader? comment).map (reduce (startsWith comment "/*".toList) .firstLine)
+  (removeCommentHeader? comment).map (reduce (startsWith comment ['/', '*']) .firstLine)
 
 /-! ## `changed_comment_content` and `recover_comment_removed` -/
 
@@ -312,15 +312,18 @@ def changedCommentContent? (orig new : List Char) : Option Bool :=
   | some a, some b => (streamsEq? (contentEvents a) (contentEvents b)).map (!·)
   | _, _ => none
 
-/-- The whole comment payload of a piece of code (what the safety net compares), when no
-comment header panics. -/
+/-- All the events of a stream, when none is a panic. -/
+def sequence : List (Option Char) → Option (List Char)
+  | [] => some []
+  | none :: _ => none
+  | some c :: rest => (sequence rest).map (c :: ·)
+
+/-- The whole comment payload of a piece of code (what the safety net compares): the payloads of
+its comment slices concatenated; `none` when a comment header panics. -/
 def commentPayload? (code : List Char) : Option (List Char) :=
   match ungrouped? code with
   | none => none
-  | some sl => (sl.filter (·.kind == .comment)).foldr
-      (fun s acc => match payload? s.text, acc with
-        | some p, some r => some (p ++ r)
-        | _, _ => none) (some [])
+  | some sl => sequence (contentEvents sl)
 
 /-- `recover_comment_removed(new, span, context)` with `snippet = context.snippet(span)`:
 the text returned and whether a `LostComment` error is appended to the report
@@ -416,14 +419,14 @@ inductive CommentStyle where
 text ends with `*/`.) -/
 def extractPreComment (pre : List Char) : Option (List Char) × CommentStyle :=
   let t := trim pre
-  if endsWith t "*/".toList then
+  if endsWith t ['*', '/'] then
     match rfindChar (· == '/') pre with
     | some ce =>
       match dropBytes? ce pre with
       | some tail => if containsChar '\n' tail then (some t, .differentLine) else (some t, .sameLine)
       | none => (some t, .sameLine) -- not reached
     | none => (some t, .sameLine) -- not reached
-  else if startsWith t "//".toList || startsWith t "/*".toList then (some t, .differentLine)
+  else if startsWith t ['/', '/'] || startsWith t ['/', '*'] then (some t, .differentLine)
   else (none, .none)
 
 /-- `extract_post_comment` (`lists.rs:614-661`); `none` = a slice panics (`comment_end` off a
@@ -437,7 +440,7 @@ def extractPostComment? (post : List Char) (commentEnd : Nat) (separator : List 
     let lastInlineEndsWithSep :=
       if isLast then
         match (rustLines ps).getLast? with
-        | some line => endsWith line separator && startsWith (trim line) "//".toList
+        | some line => endsWith line separator && startsWith (trim line) ['/', '/']
         | none => false
       else false
     let trimmed? : Option (List Char) :=
@@ -446,7 +449,7 @@ def extractPostComment? (post : List Char) (commentEnd : Nat) (separator : List 
       else if startsWith ps separator then some (trimBlanks (ps.drop separator.length))
       else if lastInlineEndsWithSep then some (trimBlanks ps)
       else if endsWith ps separator
-          && (!startsWith (trim ps) "//".toList || containsChar '\n' (trim ps)) then
+          && (!startsWith (trim ps) ['/', '/'] || containsChar '\n' (trim ps)) then
         -- `post_snippet[..(post_snippet.len() - 1)]`
         (if utf8Len ps = 0 then none else takeBytes? (utf8Len ps - 1) ps).map trimBlanks
       else some ps
@@ -454,7 +457,7 @@ def extractPostComment? (post : List Char) (commentEnd : Nat) (separator : List 
     | none => none
     | some t =>
       let r := trim t
-      if !t.isEmpty && (startsWith r "//".toList || startsWith r "/*".toList) then some (some t)
+      if !t.isEmpty && (startsWith r ['/', '/'] || startsWith r ['/', '*']) then some (some t)
       else some none
 
 /-- `get_comment_end` (`lists.rs:663-713`); `none` = panic (`find_comment_end(..).unwrap()` on an
@@ -462,7 +465,7 @@ unterminated block comment). -/
 def getCommentEnd? (post separator terminator : List Char) (isLast : Bool) : Option Nat :=
   if isLast then some ((findUncommented post terminator).getD (utf8Len post))
   else
-    let blockOpen0 := findStr "/*".toList post
+    let blockOpen0 := findStr ['/', '*'] post
     let blockOpen : Option Nat :=
       match blockOpen0 with
       | some i =>
@@ -574,12 +577,36 @@ def leChars : List Char → List Char → Bool
   | a :: as, b :: bs =>
     if a.toNat < b.toNat then true else if b.toNat < a.toNat then false else leChars as bs
 
+/-- Merge of two sorted lists (`fuel` ≥ the sum of the lengths). -/
+def mergeGo : Nat → List (List Char) → List (List Char) → List (List Char)
+  | _, [], ys => ys
+  | _, xs, [] => xs
+  | 0, xs, ys => xs ++ ys
+  | fuel + 1, x :: xs, y :: ys =>
+    if leChars x y then x :: mergeGo fuel xs (y :: ys) else y :: mergeGo fuel (x :: xs) ys
+
+def mergeTexts (xs ys : List (List Char)) : List (List Char) :=
+  mergeGo (xs.length + ys.length) xs ys
+
+def mergePairs : List (List (List Char)) → List (List (List Char))
+  | a :: b :: rest => mergeTexts a b :: mergePairs rest
+  | l => l
+
+/-- Bottom-up merge sort; `fuel` passes (`length` passes are more than enough). -/
+def mergeAll : Nat → List (List (List Char)) → List (List Char)
+  | _, [] => []
+  | _, [a] => a
+  | 0, a :: _ => a
+  | fuel + 1, runs => mergeAll fuel (mergePairs runs)
+
+def sortTexts (l : List (List Char)) : List (List Char) := mergeAll l.length (l.map ([·]))
+
 /-- A normalised comment as one text. -/
 def flatComment (c : List Char) : List Char := List.intercalate ['\n'] (normComment c)
 
 /-- The same comments up to re-indentation and trailing blanks, as multisets. -/
 def commentsPreservedUnordered (ins outs : List (List Char)) : Bool :=
-  (ins.map flatComment).mergeSort leChars == (outs.map flatComment).mergeSort leChars
+  sortTexts (ins.map flatComment) == sortTexts (outs.map flatComment)
 
 /-- Multiset inclusion of two sorted lists. -/
 def subMultisetSorted : List (List Char) → List (List Char) → Bool
@@ -591,7 +618,6 @@ def subMultisetSorted : List (List Char) → List (List Char) → Bool
 
 /-- Every word of the input's comments occurs in the output's comments at least as often. -/
 def wordsPreservedUnordered (ins outs : List (List Char)) : Bool :=
-  subMultisetSorted ((ins.flatMap commentWords).mergeSort leChars)
-    ((outs.flatMap commentWords).mergeSort leChars)
+  subMultisetSorted (sortTexts (ins.flatMap commentWords)) (sortTexts (outs.flatMap commentWords))
 
 end RF.Comment
